@@ -11,6 +11,12 @@ F (specification terminal + decoding rules on the REAL bytes):
    * with background formatting, only cells of the placeholder's rectangle carry a background.
 Sequence cases (k = "seq"): 2..6 renderings in ONE fresh process (the same request again, with only
    no_escape flipped, other formatting, one parameter changed, …), each rendering judged on its own.
+Argument cases (field "arg"): every field the constructor / validate() guard at and beyond its limits (ids 0, 2^24-1,
+   2^24, 2^32-1, 2^32, negative; rectangles negative, empty, reversed, beyond 297), reaching the emitting call through
+   the positional / keyword constructor, clone_with, attribute assignment (fresh and long-lived objects) and the
+   keyword forms of GraphicsTerminal.print_placeholder.  F: EITHER the call refuses and nothing reaches the stream, OR
+   every emitted line shown alone decodes to exactly the REQUESTED image id, placement id, row and columns (a line
+   cannot carry a value outside what its colours and diacritics encode, so emitting it as something else is a failure).
 """
 from __future__ import annotations
 
@@ -18,8 +24,8 @@ import json
 from pathlib import Path
 
 from . import ph_util as U
-from .common import Ctx
-from .c07 import COLS_SMALL, ROWS, SGRS, byte_ids, byte_pids, geometry, fresh_request, neighbour_request, realise
+from .common import Ctx, ToolFailure
+from .c07 import COLS_SMALL, ROWS, SGRS, byte_ids, byte_pids, geometry, fresh_request, neighbour_request, realise, stream_case
 
 DRIVERS = ["drv_ph"]
 EVIDENCE = dict(
@@ -61,11 +67,16 @@ def rand_fmt(rng, p):
 def _impl(c):
     """the real code on a single case (in this process)"""
     p, m, f = c["ph"], c["mode"], c["fmt"]
-    if c["k"] == "alone":
-        return U.impl_lines(p, m, f, c.get("noesc", 0))
-    if c["k"] == "stream":
+    if c["k"] not in ("alone", "stream"):
+        raise ValueError(c["k"])
+    try:
+        if c["k"] == "alone":
+            return U.impl_lines(p, m, f, c.get("noesc", 0), None, c)
         return U.impl_stream(c["style"], p, m, f, c.get("via", "direct"), None, c)
-    raise ValueError(c["k"])
+    except ToolFailure:
+        raise
+    except Exception as e:      # neither output nor one of the two refusals: a status the model never gives
+        return "err " + type(e).__name__, None
 
 
 def _noesc(c):
@@ -79,23 +90,34 @@ def _reqs(c, impl):
     if c["k"] == "alone":
         st, lines = impl
         reqs = [U.req_lines(p, m, f, c.get("noesc", 0))]
-        if st == "ok" and U.in_domain(p) and not _noesc(c):
-            W = C + c.get("slack", 0)
-            order = c["order"]
+        if st == "ok" and not _noesc(c):
+            # (also outside the domain of the property: what IS emitted must show what was requested)
+            W = max(C, 1) + c.get("slack", 0)
+            order = _order(c, lines)
             data = b"\r\n".join(lines[i] for i in order)
             reqs.append(U.req_spec(W, max(1, len(order)), 0, 0, 1, 1, 0, c.get("sgr", DEFAULT), data))
-            for i in c.get("single", []):
+            for i in _single(c, lines):
                 reqs.append(U.req_spec(W, 1, 0, 0, 1, 1, 0, c.get("sgr", DEFAULT), lines[i]))
         return reqs
     if c["k"] == "stream":
         style = c["style"]
         st, data = impl
         reqs = [U.req_stream(style, p, m, f)]
-        if st == "ok" and U.in_domain(p) and not _noesc(c):
+        if (st == "ok" and not _noesc(c)) or (st != "ok" and data):
+            # complete output (also outside the domain), or whatever a refusing call wrote before it raised
             onlcr = 1 if (style[0] == "lfall" or (style[0] == "cur" and style[2]) or (style[0] == "disp" and style[1] is None and style[3])) else 0
             reqs.append(U.req_spec(c["W"], c["H"], c["x0"], c["y0"], c.get("cub", 1), c.get("rs", 1), onlcr, c.get("sgr", DEFAULT), data))
         return reqs
     raise ValueError(c["k"])
+
+
+def _order(c, lines):
+    """the lines shown (indices into what was emitted; an out-of-domain request may emit fewer lines than asked for)"""
+    return [i for i in c["order"] if 0 <= i < len(lines)]
+
+
+def _single(c, lines):
+    return [i for i in c.get("single", []) if 0 <= i < len(lines)]
 
 
 def _requests(c, res=None):
@@ -131,6 +153,14 @@ def _judge(ctx: Ctx, c, impl, replies):
     ctx.count("impl:" + st)
     if _noesc(c):
         ctx.count("no_escape")
+    if "arg" in c:
+        a = c["arg"]
+        ctx.count("arg-route:" + a["route"] + ":" + (c["k"] if c["k"] == "alone" else c["style"][0]))
+        for g in a["edge"]:
+            ctx.count("arg-edge:%s:%s" % (g, "emitted" if st == "ok" else "refused"))
+        ctx.count("arg-domain:%s:%s" % ("in" if U.in_domain(p) else "out", "emitted" if st == "ok" else "refused"))
+    elif st == "ok" and not U.in_domain(p):
+        ctx.count("emitted-outside-domain")
     C = p[4] - p[2]
     if c["k"] == "alone":
         mst, mlines = U.model_lines(replies[0])
@@ -141,7 +171,7 @@ def _judge(ctx: Ctx, c, impl, replies):
             ctx.mismatch("to_lines bytes", c, {"line": bad, "impl": out[bad].hex() if bad is not None and bad < len(out) else None},
                          {"line": bad, "model": mlines[bad].hex() if bad is not None and bad < len(mlines) else None})
         if len(replies) > 1:
-            order = c["order"]
+            order = _order(c, out)
             ctx.count("order-len:%d" % min(len(order), 6))
             if any(p[3] + i >= U.TABLE for i in order):
                 ctx.count("has-blank-row")
@@ -152,7 +182,7 @@ def _judge(ctx: Ctx, c, impl, replies):
                     if p[3] + i < U.TABLE:
                         want[(k, b)] = (p[0], p[1], p[3] + i, p[2] + b)
             _check_screen(ctx, c, U.parse_spec(replies[1]), want, rect, "subset/permutation of lines")
-            for n, i in enumerate(c.get("single", [])):
+            for n, i in enumerate(_single(c, out)):
                 want1 = {(0, b): (p[0], p[1], p[3] + i, p[2] + b) for b in range(C)} if p[3] + i < U.TABLE else {}
                 _check_screen(ctx, dict(c, order=[i], single=[]), U.parse_spec(replies[2 + n]), want1, {(0, b) for b in range(C)}, "single line")
         return
@@ -163,6 +193,19 @@ def _judge(ctx: Ctx, c, impl, replies):
         ctx.mismatch("to_stream status", c, st, mst)
     elif st == "ok" and out != mdata:
         ctx.mismatch("to_stream bytes", c, out.hex()[:400], mdata.hex()[:400])
+    if st != "ok" and out:
+        # the call refused, but only after writing: the model's refusals write nothing (K); the statement's "after any
+        # placeholder output" and "decodes to the right cells" apply to what did reach the terminal (F)
+        ctx.mismatch("bytes written before the refusal", c, out.hex()[:400], None)
+        if len(replies) > 1:
+            sp = U.parse_spec(replies[1])
+            want, _, _ = U.expected(style, p, c["W"], c["H"], c["x0"], c["y0"])
+            stray = {k: v for k, v in sp["ph"].items() if want.get(k) != v}
+            if stray or sp["sgr"] != DEFAULT:
+                ctx.violation("the call raised after writing output that shows cells not requested or leaves attributes set", c,
+                              {"stray": U.diff_cells(stray, {}), "sgr(fg/ul/bg)": sp["sgr"], "written": out.hex()[:200]},
+                              key="refusal-after-output")
+        return
     if len(replies) > 1:
         sp = U.parse_spec(replies[1])
         want, cur, s = U.expected(style, p, c["W"], c["H"], c["x0"], c["y0"])
@@ -200,6 +243,8 @@ def cases(ctx: Ctx):
     pids = byte_pids()
     modes = U.all_modes()
     rows = ROWS + [(0, 5), (293, 299), (296, 299)]
+    # guarded arguments at and beyond their limits, through every route (first: never cut by the time budget)
+    yield from arg_cases(rng, quick)
     n_alone = 5000 if quick else 60000
     for n in range(n_alone):
         m = modes[n % len(modes)]
@@ -234,6 +279,121 @@ def cases(ctx: Ctx):
         yield c
     # sequences of renderings in one process (state kept between calls: memoised colours / lines, shared objects, call order)
     yield from seq_cases(rng, 900 if quick else 9000, ids, pids, modes)
+
+
+# ---------------------------------------------------------------------------------------
+# argument cases: every guarded field at and beyond its limits, through every way a value reaches an emitting call
+# ---------------------------------------------------------------------------------------
+ID_EDGE = [0, 1, 255, 256, 2**24 - 1, 2**24, 2**24 + 1, 2**31, 2**32 - 1, 2**32, 2**32 + 1, 2**33 + 5, 2**40 + 7, -1, -255, -2**24, -2**31, -2**32]
+PID_EDGE = [0, 1, 255, 256, 2**16, 2**24 - 1, 2**24, 2**24 + 1, 2**24 + 5, 2**24 + 256, 2**25, 2**25 + 2**16, 2**31, 2**32 - 1, 2**32,
+            2**32 + 1, 2**40, -1, -5, -2**24, -2**31]
+# (start, end) of a span: negative, empty, reversed, at and beyond the 297 addressable rows / columns; some valid ones
+SPAN_EDGE = [(-1, 2), (-3, -1), (-2, 0), (-1, 0), (0, 0), (2, 2), (3, 2), (5, 1), (0, -1), (0, -3), (1, 0), (295, 297), (296, 297),
+             (296, 298), (296, 299), (297, 297), (297, 298), (297, 299), (298, 297), (298, 296), (300, 303), (300, 300), (400, 399),
+             (0, 1), (1, 3), (0, 3)]
+ARG_MODES = [[1, 0, 1, 4, 4], [1, 0, 1, 3, 3], [1, 0, 1, 1, 0], [1, 1, 0, 4, 4], [0, 1, 1, 2, 1], [0, 0, 0, 3, 2], [1, 1, 1, 4, 0]]
+ARG_ROUTES = ["ctor", "kw", "clone", "assign", "term-kw", "term-obj", "term-over", "slot"]
+DIRECT_STYLES = [["cur", 1, 0], ["cur", 0, 0], ["cur", 1, 1], ["lfall", 0], ["abs", 1, 0], ["abs", 0, 2], ["disp", None, 1, 0],
+                 ["disp", None, 0, 1], ["disp", [1, 1], 1, 0]]
+TERM_STYLES = [["disp", None, 1, 0], ["disp", None, 0, 0], ["disp", None, 1, 1], ["disp", None, 0, 1], ["disp", [0, 0], 1, 0], ["disp", [2, 1], 0, 0]]
+
+
+def arg_call(rng, p, base, route, m, f, edge):
+    """ONE emitting call that is asked for the placeholder p (base = the valid placeholder it differs from in the fields
+    `edge` names), the values travelling the way `route` says"""
+    rect_ok = 0 <= p[2] < p[4] and 0 <= p[3] < p[5]
+    q = list(p) if rect_ok else [1, 0, 0, 0, 2, 2]          # the rectangle the terminal geometry is laid out for
+    changed = [i for i in range(6) if p[i] != base[i]]
+    extra = {"arg": {"route": route, "edge": edge}}
+    term = route.startswith("term")
+    if route in ("kw", "clone", "assign"):
+        extra["make"] = route
+        if route != "kw":
+            extra["from"] = list(base)
+    elif route == "slot":
+        extra["slot"] = 0
+    elif route == "term-kw":
+        extra["form"] = {"base": None, "over": [i for i in range(6) if p[i] != 0 or rng.random() < 0.5]}
+    elif route == "term-obj":
+        extra["form"] = {"base": "obj", "over": [], "junk": [0] * 6}
+        how = rng.choice([None, "kw", "assign", "clone"])
+        if how:
+            extra["make"] = how
+            if how != "kw":
+                extra["from"] = list(base)
+    elif route == "term-over":
+        # the object holds the valid values; the offending ones arrive as keyword overrides (plus, sometimes, others)
+        over = sorted(set(changed) | set(rng.sample(range(6), rng.choice([0, 0, 1, 2]))))
+        extra["form"] = {"base": "obj", "over": over, "junk": list(base)}
+    if rng.random() < 0.4:
+        extra["omitopt"] = 1
+    R = max(0, min(p[5] - p[3], 8))
+    if not term and rng.random() < 0.4:
+        c = dict(k="alone", ph=list(p), mode=m, fmt=f, order=rand_order(rng, R) if R else [], single=list(range(R)) if R <= 3 else [0, R - 1],
+                 sgr=rng.choice(SGRS), slack=rng.choice([0, 0, 2]))
+        if rng.random() < 0.12:
+            c["noesc"] = 1
+    else:
+        style = rng.choice(TERM_STYLES) if term else (["lfall", 1] if rng.random() < 0.06 else rng.choice(DIRECT_STYLES))
+        c = stream_case(rng, q, m, f, style=style, via="term" if term else "direct")
+        c["ph"] = list(p)
+    c.update(extra)
+    return c
+
+
+def arg_cases(rng, quick):
+    """For every edge value of every guarded field group (image id, placement id, column span, row span; sometimes two
+    groups at once) x every route: single calls, and for the long-lived-object route a sequence in one process — the
+    object emits a valid placeholder, is re-assigned to the edge values, emits (or refuses), is re-assigned back, emits."""
+    groups = [("id", ID_EDGE), ("pid", PID_EDGE), ("cols", SPAN_EDGE), ("rows", SPAN_EDGE)]
+    reps = 1 if quick else 6
+    for _rep in range(reps):
+        for g, edges in groups:
+            extra_edges = []
+            if g == "pid":
+                extra_edges = [rng.randrange(2**24, 2**32) for _ in range(6)] + [rng.randrange(2**24, 2**32) & ~0xFFFFFF for _ in range(2)]
+            elif g == "id":
+                extra_edges = [rng.randrange(2**32, 2**34) for _ in range(2)]
+            for v in list(edges) + extra_edges:
+                for route in ARG_ROUTES:
+                    sc, ec = rng.choice([(0, 3), (1, 3), (0, 1), (2, 4)])
+                    sr, er = rng.choice([(0, 2), (0, 3), (1, 2), (0, 1)])
+                    if route == "term-kw" and rng.random() < 0.5:
+                        sc, ec, sr, er = 0, ec - sc, 0, er - sr      # the defaults of the keyword form, which are then left out
+                    base = [rng.choice([1, 0x1234, 0xFFFFFF, 0x01000001, 0xFFFFFFFF, 0x7F000000]),
+                            0 if route == "term-kw" and rng.random() < 0.5 else rng.choice([0, 5, 0x10203, 0xFFFFFF]), sc, sr, ec, er]
+                    p, edge = list(base), [g]
+
+                    def put(grp, val):
+                        if grp == "id":
+                            p[0] = val
+                        elif grp == "pid":
+                            p[1] = val
+                        elif grp == "cols":
+                            p[2], p[4] = val
+                        else:
+                            p[3], p[5] = val
+                    put(g, v)
+                    if rng.random() < 0.15:
+                        g2, e2 = rng.choice([x for x in groups if x[0] != g])
+                        put(g2, rng.choice(e2))
+                        edge.append(g2)
+                    m = list(rng.choice(ARG_MODES)) if rng.random() < 0.7 else [rng.randrange(2), rng.randrange(2), rng.randrange(2), rng.choice([1, 2, 3, 4]), rng.randrange(5)]
+                    f = {"t": "n"} if rng.random() < 0.6 else rand_fmt(rng, [1, 0, 0, 0, 3, 3] if not (0 <= p[2] < p[4] and 0 <= p[3] < p[5]) else p)
+                    call = arg_call(rng, p, base, route, m, f, edge)
+                    if route != "slot":
+                        yield call
+                        continue
+                    first = arg_call(rng, base, base, "slot", m, f, [])
+                    first.pop("arg")
+                    calls = [first, call]
+                    if rng.random() < 0.6:
+                        again = arg_call(rng, base, base, rng.choice(["slot", "slot", "term-obj"]), m, f, [])
+                        again.pop("arg")
+                        again.pop("make", None), again.pop("from", None)
+                        again["slot"] = 0
+                        calls.append(again)
+                    yield dict(k="seq", calls=calls)
 
 
 def rand_order(rng, R):
@@ -308,7 +468,14 @@ def run(ctx: Ctx):
                 "process (the same request again / with only no_escape flipped / with other formatting / with one or two of id, "
                 "placement, rectangle, mode field, style changed / a new one), through to_lines, the to_stream* methods and "
                 "GraphicsTerminal.print_placeholder (keyword-only, object, object + overrides), on re-used objects, each rendering "
-                "judged on its own (no_escape=True renderings by the correspondence only). distinct = canonical JSON; "
+                "judged on its own (no_escape=True renderings by the correspondence only). 'arg': every field the constructor / "
+                "validate() guard at and beyond its limits (image id 0, 2^24, 2^32-1, 2^32, beyond, negative; placement id 0, 2^24-1, "
+                "2^24, 2^24+1, random 25..32-bit, 2^32-1, 2^32, negative; column / row spans negative, empty, reversed, at and beyond "
+                "297; one or two groups at once) reaching to_lines / to_stream* / print_placeholder through the positional and keyword "
+                "constructor, clone_with, attribute assignment on a fresh object and on a long-lived one that emitted before and "
+                "emits a valid placeholder afterwards, and print_placeholder's keyword-only / object / object + override forms; "
+                "whatever IS emitted (inside the domain or not) must decode line by line to exactly the requested id, placement, "
+                "row, columns, a refusal must have written nothing. distinct = canonical JSON; "
                 "non-trivial = formatting present or more than one line shown")
     corpus_dir = Path(__file__).resolve().parent.parent / "corpus" / "C13"
     if corpus_dir.is_dir():
@@ -329,6 +496,8 @@ def run(ctx: Ctx):
             batch = []
     run_batch(ctx, batch)
     ctx.assumptions += [
+        "a placeholder whose fields cannot be carried by a line (ids out of range, empty / negative rectangles, a start column "
+        "beyond the 297 diacritics) may be refused; if it is emitted it is judged like any other against the requested values",
         "caller formatting is background-only SGR (the two forms get_formatting produces) or empty; arbitrary caller bytes are outside the claim",
         "lines shown alone start at column 0 of a blank row and are separated by CR LF (a tty with ONLCR)",
         "no_escape=True output is an explicit opt-out of the resets and is only covered by the correspondence (C07)",
